@@ -62,6 +62,17 @@ def parse_emitted(out, tag="EV"):
     return vals
 
 
+def canon_graph(nodes, edges, inits, keyvars):
+    """TLC numbers states by fingerprint (random per run) and its workers write them in any order: relabel the graph
+    by state content so that the edge cover, hence the whole run, is the same every time"""
+    key = {i: json.dumps(tlc.to_py({k: st[k] for k in keyvars}), sort_keys=True) for i, st in nodes.items()}
+    order = sorted(nodes, key=lambda i: key[i])
+    new = {old: "%07d" % k for k, old in enumerate(order)}
+    n2 = {new[i]: nodes[i] for i in order}
+    e2 = sorted({(new[u], new[v], a) for (u, v, a) in edges if u in new and v in new})
+    return n2, e2, sorted(new[i] for i in inits)
+
+
 def fn0(v, n):
     """parsed 0-based TLA+ function (dict) or sequence -> python list"""
     if isinstance(v, dict):
@@ -137,6 +148,7 @@ def part_dsu(ctx, exe):
     exhaustive = bool(res.finished)
     res, nodes, edges, inits = tlc.dump_graph(spec, os.path.join(TLA, "Islands_MC.cfg"), timeout=900)
     ctx.tlc_ok(res, "Islands_MC(graph)")
+    nodes, edges, inits = canon_graph(nodes, edges, inits, ("parent", "edges", "nops", "ev"))
     paths = tlc.edge_cover_paths(nodes, edges, inits)
     behs = [(4, [nodes[i] for i in p]) for p in paths]
     nsim = 100 if ctx.quick else 1500
@@ -477,6 +489,7 @@ def part_model(ctx, exe):
     cfg = "IslandsModel_MC.cfg" if ctx.quick else "IslandsModel_Deep.cfg"
     res, nodes, edges, inits = tlc.dump_graph(spec, os.path.join(TLA, cfg), timeout=3000)
     ctx.tlc_ok(res, cfg[:-4] + "(graph)")
+    nodes, edges, inits = canon_graph(nodes, edges, inits, ("cons", "on", "ntog"))
     paths = tlc.edge_cover_paths(nodes, edges, inits)
     behs = [[nodes[i] for i in p] for p in paths]
     tr = model_behaviours(ctx, exe, 3, behs, cfg[:-4], combos)
